@@ -40,6 +40,7 @@ import PyFV.Gen.AvgGen
 import PyFV.Model.Avg
 import PyFV.Props.Examples
 import PyFV.Lemmas.GenEqTac
+import PyFV.Lemmas.HarmForms
 import Mathlib.Tactic.Ring
 import Mathlib.Tactic.FieldSimp
 import Mathlib.Tactic.NormNum
@@ -49,6 +50,7 @@ set_option linter.unusedSimpArgs false
 set_option linter.unusedVariables false
 set_option linter.unreachableTactic false
 set_option linter.unusedTactic false
+set_option linter.unnecessarySeqFocus false
 
 namespace PyFV.GenEqAvg
 open PyFV
@@ -252,109 +254,87 @@ theorem arithmeticMean_z_3D_eq (M : Mesh α) (φ : CellFld α) (i j k : ℕ) :
 
 /-! ### averaging.py: `harmonicMean` = `harmMean`
     1-D: the scalar loop (vectorised by the translator; loop range = the whole array, checked); 2-D / 3-D: `_harmonic_face`
-    with its two `np.where`. -/
+    with its two `np.where`.  The proofs (`harm_of_some`, `harm_eq` of PyFV/Lemmas/HarmForms.lean) do not depend on
+    WHICH of the two equal algebraic forms (quotient `(a+b)/(a/q+b/p)`, product `q p (a+b)/(a p+b q)`) a branch of the
+    source uses, on the operand order of its zero test, or on the `np.where(zero, 1.0, ..)` guard of the divisor. -/
 
 /-- the model has a value ⇒ it is the generated one -/
 theorem harmonicMean_x_1D_of_some (M : Mesh α) (hk : M.kind.dim = 1) (φ : CellFld α) (i j k : ℕ) (v : α)
     (hv : harmMean M φ .x (i, 1, 1) = some v) : Gen.AvgGen.harmonicMean_x_1D M φ i j k = v := by
   simp only [Gen.AvgGen.harmonicMean_x_1D, harmMean, sdiv, hk, Mesh.axis, Idx.get, Idx.next, Idx.prev, Idx.set] at hv ⊢
-  split_ifs at hv ⊢ <;> first
-    | (simp_all <;> done)
-    | (simp only [*, ↓reduceIte, if_false, if_true, Option.some.injEq] at hv <;> subst hv <;> geq_ring)
+  harm_of_some (φ (i, 1, 1)) (φ (i+1, 1, 1)) (M.ax.DX (i+1)) (M.ax.DX i) hv
 
 /-- a zero neighbour, or a non-vanishing divisor ⇒ the model's value is the generated one -/
 theorem harmonicMean_x_1D_eq (M : Mesh α) (hk : M.kind.dim = 1) (φ : CellFld α) (i j k : ℕ)
     (h : φ (i, 1, 1) = 0 ∨ φ (i+1, 1, 1) = 0 ∨ M.ax.DX (i+1) / φ (i+1, 1, 1) + M.ax.DX i / φ (i, 1, 1) ≠ 0) :
     harmMean M φ .x (i, 1, 1) = some (Gen.AvgGen.harmonicMean_x_1D M φ i j k) := by
   simp only [Gen.AvgGen.harmonicMean_x_1D, harmMean, sdiv, hk, Mesh.axis, Idx.get, Idx.next, Idx.prev, Idx.set]
-  split_ifs <;> first
-    | (simp_all <;> done)
-    | (simp_all <;> geq_ring)
+  harm_eq (φ (i, 1, 1)) (φ (i+1, 1, 1)) (M.ax.DX (i+1)) (M.ax.DX i) h
 
 /-- the model has a value ⇒ it is the generated one -/
 theorem harmonicMean_x_2D_of_some (M : Mesh α) (hk : M.kind.dim ≠ 1) (φ : CellFld α) (i j k : ℕ) (v : α)
     (hv : harmMean M φ .x (i, j+1, 1) = some v) : Gen.AvgGen.harmonicMean_x_2D M φ i j k = v := by
   simp only [Gen.AvgGen.harmonicMean_x_2D, harmMean, sdiv, hk, Mesh.axis, Idx.get, Idx.next, Idx.prev, Idx.set] at hv ⊢
-  split_ifs at hv ⊢ <;> first
-    | (simp_all <;> done)
-    | (simp only [*, ↓reduceIte, if_false, if_true, Option.some.injEq] at hv <;> subst hv <;> geq_ring)
+  harm_of_some (φ (i, j+1, 1)) (φ (i+1, j+1, 1)) (M.ax.DX (i+1)) (M.ax.DX i) hv
 
 /-- a zero neighbour, or a non-vanishing divisor ⇒ the model's value is the generated one -/
 theorem harmonicMean_x_2D_eq (M : Mesh α) (hk : M.kind.dim ≠ 1) (φ : CellFld α) (i j k : ℕ)
     (h : φ (i, j+1, 1) = 0 ∨ φ (i+1, j+1, 1) = 0 ∨ M.ax.DX (i+1) * φ (i, j+1, 1) + M.ax.DX i * φ (i+1, j+1, 1) ≠ 0) :
     harmMean M φ .x (i, j+1, 1) = some (Gen.AvgGen.harmonicMean_x_2D M φ i j k) := by
   simp only [Gen.AvgGen.harmonicMean_x_2D, harmMean, sdiv, hk, Mesh.axis, Idx.get, Idx.next, Idx.prev, Idx.set]
-  split_ifs <;> first
-    | (simp_all <;> done)
-    | (simp_all <;> geq_ring)
+  harm_eq (φ (i, j+1, 1)) (φ (i+1, j+1, 1)) (M.ax.DX (i+1)) (M.ax.DX i) h
 
 /-- the model has a value ⇒ it is the generated one -/
 theorem harmonicMean_y_2D_of_some (M : Mesh α) (hk : M.kind.dim ≠ 1) (φ : CellFld α) (i j k : ℕ) (v : α)
     (hv : harmMean M φ .y (i+1, j, 1) = some v) : Gen.AvgGen.harmonicMean_y_2D M φ i j k = v := by
   simp only [Gen.AvgGen.harmonicMean_y_2D, harmMean, sdiv, hk, Mesh.axis, Idx.get, Idx.next, Idx.prev, Idx.set] at hv ⊢
-  split_ifs at hv ⊢ <;> first
-    | (simp_all <;> done)
-    | (simp only [*, ↓reduceIte, if_false, if_true, Option.some.injEq] at hv <;> subst hv <;> geq_ring)
+  harm_of_some (φ (i+1, j, 1)) (φ (i+1, j+1, 1)) (M.ay.DX (j+1)) (M.ay.DX j) hv
 
 /-- a zero neighbour, or a non-vanishing divisor ⇒ the model's value is the generated one -/
 theorem harmonicMean_y_2D_eq (M : Mesh α) (hk : M.kind.dim ≠ 1) (φ : CellFld α) (i j k : ℕ)
     (h : φ (i+1, j, 1) = 0 ∨ φ (i+1, j+1, 1) = 0 ∨ M.ay.DX (j+1) * φ (i+1, j, 1) + M.ay.DX j * φ (i+1, j+1, 1) ≠ 0) :
     harmMean M φ .y (i+1, j, 1) = some (Gen.AvgGen.harmonicMean_y_2D M φ i j k) := by
   simp only [Gen.AvgGen.harmonicMean_y_2D, harmMean, sdiv, hk, Mesh.axis, Idx.get, Idx.next, Idx.prev, Idx.set]
-  split_ifs <;> first
-    | (simp_all <;> done)
-    | (simp_all <;> geq_ring)
+  harm_eq (φ (i+1, j, 1)) (φ (i+1, j+1, 1)) (M.ay.DX (j+1)) (M.ay.DX j) h
 
 /-- the model has a value ⇒ it is the generated one -/
 theorem harmonicMean_x_3D_of_some (M : Mesh α) (hk : M.kind.dim ≠ 1) (φ : CellFld α) (i j k : ℕ) (v : α)
     (hv : harmMean M φ .x (i, j+1, k+1) = some v) : Gen.AvgGen.harmonicMean_x_3D M φ i j k = v := by
   simp only [Gen.AvgGen.harmonicMean_x_3D, harmMean, sdiv, hk, Mesh.axis, Idx.get, Idx.next, Idx.prev, Idx.set] at hv ⊢
-  split_ifs at hv ⊢ <;> first
-    | (simp_all <;> done)
-    | (simp only [*, ↓reduceIte, if_false, if_true, Option.some.injEq] at hv <;> subst hv <;> geq_ring)
+  harm_of_some (φ (i, j+1, k+1)) (φ (i+1, j+1, k+1)) (M.ax.DX (i+1)) (M.ax.DX i) hv
 
 /-- a zero neighbour, or a non-vanishing divisor ⇒ the model's value is the generated one -/
 theorem harmonicMean_x_3D_eq (M : Mesh α) (hk : M.kind.dim ≠ 1) (φ : CellFld α) (i j k : ℕ)
     (h : φ (i, j+1, k+1) = 0 ∨ φ (i+1, j+1, k+1) = 0 ∨ M.ax.DX (i+1) * φ (i, j+1, k+1) + M.ax.DX i * φ (i+1, j+1, k+1) ≠ 0) :
     harmMean M φ .x (i, j+1, k+1) = some (Gen.AvgGen.harmonicMean_x_3D M φ i j k) := by
   simp only [Gen.AvgGen.harmonicMean_x_3D, harmMean, sdiv, hk, Mesh.axis, Idx.get, Idx.next, Idx.prev, Idx.set]
-  split_ifs <;> first
-    | (simp_all <;> done)
-    | (simp_all <;> geq_ring)
+  harm_eq (φ (i, j+1, k+1)) (φ (i+1, j+1, k+1)) (M.ax.DX (i+1)) (M.ax.DX i) h
 
 /-- the model has a value ⇒ it is the generated one -/
 theorem harmonicMean_y_3D_of_some (M : Mesh α) (hk : M.kind.dim ≠ 1) (φ : CellFld α) (i j k : ℕ) (v : α)
     (hv : harmMean M φ .y (i+1, j, k+1) = some v) : Gen.AvgGen.harmonicMean_y_3D M φ i j k = v := by
   simp only [Gen.AvgGen.harmonicMean_y_3D, harmMean, sdiv, hk, Mesh.axis, Idx.get, Idx.next, Idx.prev, Idx.set] at hv ⊢
-  split_ifs at hv ⊢ <;> first
-    | (simp_all <;> done)
-    | (simp only [*, ↓reduceIte, if_false, if_true, Option.some.injEq] at hv <;> subst hv <;> geq_ring)
+  harm_of_some (φ (i+1, j, k+1)) (φ (i+1, j+1, k+1)) (M.ay.DX (j+1)) (M.ay.DX j) hv
 
 /-- a zero neighbour, or a non-vanishing divisor ⇒ the model's value is the generated one -/
 theorem harmonicMean_y_3D_eq (M : Mesh α) (hk : M.kind.dim ≠ 1) (φ : CellFld α) (i j k : ℕ)
     (h : φ (i+1, j, k+1) = 0 ∨ φ (i+1, j+1, k+1) = 0 ∨ M.ay.DX (j+1) * φ (i+1, j, k+1) + M.ay.DX j * φ (i+1, j+1, k+1) ≠ 0) :
     harmMean M φ .y (i+1, j, k+1) = some (Gen.AvgGen.harmonicMean_y_3D M φ i j k) := by
   simp only [Gen.AvgGen.harmonicMean_y_3D, harmMean, sdiv, hk, Mesh.axis, Idx.get, Idx.next, Idx.prev, Idx.set]
-  split_ifs <;> first
-    | (simp_all <;> done)
-    | (simp_all <;> geq_ring)
+  harm_eq (φ (i+1, j, k+1)) (φ (i+1, j+1, k+1)) (M.ay.DX (j+1)) (M.ay.DX j) h
 
 /-- the model has a value ⇒ it is the generated one -/
 theorem harmonicMean_z_3D_of_some (M : Mesh α) (hk : M.kind.dim ≠ 1) (φ : CellFld α) (i j k : ℕ) (v : α)
     (hv : harmMean M φ .z (i+1, j+1, k) = some v) : Gen.AvgGen.harmonicMean_z_3D M φ i j k = v := by
   simp only [Gen.AvgGen.harmonicMean_z_3D, harmMean, sdiv, hk, Mesh.axis, Idx.get, Idx.next, Idx.prev, Idx.set] at hv ⊢
-  split_ifs at hv ⊢ <;> first
-    | (simp_all <;> done)
-    | (simp only [*, ↓reduceIte, if_false, if_true, Option.some.injEq] at hv <;> subst hv <;> geq_ring)
+  harm_of_some (φ (i+1, j+1, k)) (φ (i+1, j+1, k+1)) (M.az.DX (k+1)) (M.az.DX k) hv
 
 /-- a zero neighbour, or a non-vanishing divisor ⇒ the model's value is the generated one -/
 theorem harmonicMean_z_3D_eq (M : Mesh α) (hk : M.kind.dim ≠ 1) (φ : CellFld α) (i j k : ℕ)
     (h : φ (i+1, j+1, k) = 0 ∨ φ (i+1, j+1, k+1) = 0 ∨ M.az.DX (k+1) * φ (i+1, j+1, k) + M.az.DX k * φ (i+1, j+1, k+1) ≠ 0) :
     harmMean M φ .z (i+1, j+1, k) = some (Gen.AvgGen.harmonicMean_z_3D M φ i j k) := by
   simp only [Gen.AvgGen.harmonicMean_z_3D, harmMean, sdiv, hk, Mesh.axis, Idx.get, Idx.next, Idx.prev, Idx.set]
-  split_ifs <;> first
-    | (simp_all <;> done)
-    | (simp_all <;> geq_ring)
+  harm_eq (φ (i+1, j+1, k)) (φ (i+1, j+1, k+1)) (M.az.DX (k+1)) (M.az.DX k) h
 
 /-- the hypothesis of `harmonicMean_x_1D_eq` is necessary: neighbours 1 and −1 of equal width make the divisor of the
     loop formula vanish; the model has no value there (numpy: division by zero), the generated field expression is 0 -/
